@@ -180,6 +180,67 @@ def g_recursion(R, tier):
     R.check("package/trampolines-are-loops", all(n not in real for n in ("convert", "cvt", "expr_unparse", "generate_nsp")), repr(real), backend="structural")
 
 
+def size_guards():
+    """raise/assert statements of the package that sit under a condition testing a length or a
+    depth against an upper bound: [(file, function, condition text)]"""
+    pkg = os.path.join(extract.REPO, "oneliner")
+    out = []
+
+    def measures_size(e):
+        return any(isinstance(n, ast.Call) and isinstance(n.func, ast.Name) and n.func.id in ("len", "getrecursionlimit", "getsizeof")
+                   or isinstance(n, ast.Call) and isinstance(n.func, ast.Attribute) and n.func.attr in ("getrecursionlimit", "__len__", "bit_length")
+                   or isinstance(n, (ast.Name, ast.Attribute)) and "depth" in (n.id if isinstance(n, ast.Name) else n.attr).lower()
+                   for n in ast.walk(e))
+
+    def small(e):
+        return isinstance(e, ast.Constant) and isinstance(e.value, int) and abs(e.value) <= 2
+
+    def upper_bound_test(test):
+        for c in ast.walk(test):
+            if isinstance(c, ast.Compare):
+                terms = [c.left] + list(c.comparators)
+                for op, a, b in zip(c.ops, terms, terms[1:]):
+                    if isinstance(op, (ast.Gt, ast.GtE)) and measures_size(a) and not small(b):
+                        return True
+                    if isinstance(op, (ast.Lt, ast.LtE)) and measures_size(b) and not small(a):
+                        return True
+        return False
+
+    def walk(node, guards, fn, f):
+        for ch in ast.iter_child_nodes(node):
+            if isinstance(ch, (ast.FunctionDef, ast.AsyncFunctionDef)):
+                walk(ch, [], ch.name, f)
+            elif isinstance(ch, (ast.If, ast.While)):
+                for part, g in ((ch.body, guards + [ch.test]), (ch.orelse, guards + [ch.test])):
+                    for st in part:
+                        walk(ast.Module(body=[st], type_ignores=[]), g, fn, f)
+            elif isinstance(ch, ast.Raise):
+                for g in guards:
+                    if upper_bound_test(g):
+                        out.append((f, fn, ast.unparse(g)[:120]))
+            elif isinstance(ch, ast.Assert):
+                if upper_bound_test(ast.UnaryOp(op=ast.Not(), operand=ch.test)) or any(
+                        isinstance(c, ast.Compare) and any(isinstance(op, (ast.Lt, ast.LtE)) for op in c.ops) and measures_size(c.left) and not all(small(x) for x in c.comparators)
+                        for c in ast.walk(ch.test)):
+                    out.append((f, fn, "assert " + ast.unparse(ch.test)[:110]))
+            else:
+                walk(ch, guards, fn, f)
+    for root, _, files in os.walk(pkg):
+        for f in sorted(files):
+            if f.endswith(".py"):
+                walk(ast.parse(open(os.path.join(root, f), encoding="utf8").read()), [], "<module>", f)
+    return out
+
+
+def g_size_guards(R, tier):
+    """C17: no size that the interpreter accepts is refused: the package contains no refusal that
+    is conditioned on a length or nesting depth exceeding a bound (the trampolines are loops, so
+    nothing needs one)"""
+    found = size_guards()
+    R.check("package/no-refusal-conditioned-on-a-length-or-depth-bound", not found, f"raise/assert under a size bound: {found}", backend="structural",
+            replay=dict(kind="size-own"))
+
+
 FAMILIES = {
     "statements": lambda n: "".join(f"a{i} = {i}\n" for i in range(n)),
     "elif": lambda n: "x = 5\nif x == 0:\n    r = 0\n" + "".join(f"elif x == {i}:\n    r = {i}\n" for i in range(1, n)) + "else:\n    r = -1\n",
@@ -294,8 +355,8 @@ def g_library_recursion(R, tier):
             repr(sites), backend="structural")
 
 
-GROUPS = {"depth": g_depth, "library_recursion": g_library_recursion, "guards": g_guards, "recursion": g_recursion, "sizes": g_sizes, "canary": c13.g_canary}
-NO_FRAME_GROUPS = ("depth", "guards", "sizes")
+GROUPS = {"depth": g_depth, "library_recursion": g_library_recursion, "size_guards": g_size_guards, "guards": g_guards, "recursion": g_recursion, "sizes": g_sizes, "canary": c13.g_canary}
+NO_FRAME_GROUPS = ("depth", "guards", "sizes", "size_guards")
 
 
 def replay_size(rp):
